@@ -20,8 +20,16 @@ Definition tcb_ok (E : env) (tc : tcb) : Prop :=
 
 Definition table_ok (E : env) (tb : table) : Prop := forall k tc, tbl_find k tb = Some tc -> tcb_ok E tc.
 
-(* every datagram reply fits the 16-bit UDP length field (discharged separately by the
-   amplification bound for frames of at most 4096 bytes) *)
+(* client information whose addresses are octet strings (what layer 3 produces) *)
+Definition addr_octets (o : option ipaddr) : Prop :=
+  match o with
+  | Some a => bytes_ok (ip_octets a) = true /\ (length (ip_octets a) <= 16)%nat
+  | None => True
+  end.
+Definition ci_addrs_ok (ci : cinfo) : Prop := addr_octets (ci_ip_src ci) /\ addr_octets (ci_ip_dst ci).
+
+(* every datagram reply fits the 16-bit UDP length field; discharged by the amplification
+   bound for frames of at most 4096 bytes (theorem udp_replies_short_holds) *)
 Definition udp_replies_short (E : env) (clk : clock) : Prop :=
-  forall ci p ci' d, (length p <= 4096)%nat -> bytes_ok p = true ->
+  forall ci p ci' d, ci_addrs_ok ci -> (length p <= 4096)%nat -> bytes_ok p = true ->
     proto_repl_udp E clk ci p = Ok (ci', Some d) -> lenN d + 8 <= 65535.
